@@ -117,7 +117,8 @@ unit(K("raw_ops", "raw_ops_sanity_twin", functions=RAW, expect="fail", timeout=9
 
 # ---- plain cache ----------------------------------------------------------------------------------
 for n in ["plain_get_seq", "plain_get_env", "plain_get_fault", "plain_touch_seq", "plain_touch_env", "plain_touch_fault",
-          "plain_set_seq", "plain_put_seq", "plain_set_env", "plain_put_env", "plain_set_fault", "plain_put_fault", "plain_invalid_names"]:
+          "plain_set_seq", "plain_put_seq", "plain_set_env", "plain_put_env", "plain_set_fault", "plain_put_fault",
+          "plain_invalid_name_empty", "plain_invalid_name_dot", "plain_invalid_name_slash", "plain_invalid_name_backslash"]:
     mode = "rely environment (any number of peers: rebinding, eviction, mkdir, restamping) between every two calls" if n.endswith("env") else \
         "one injected failure at any call, errno in {EIO,EACCES,ENOSPC,ESTALE,..}" if n.endswith("fault") else "sequential"
     unit(K("plain_ops", n, functions=PLAIN, timeout=3000 if ("set" in n or "put" in n) else 1200, mem_gb=12,
@@ -133,7 +134,7 @@ unit(K("cache_dir_ops", "c02_cleanup_temp_missing_dir", functions=CDIR, timeout=
 
 # ---- sharded cache ------------------------------------------------------------------------------------
 for n in ["sharded_get_01", "sharded_get_10", "sharded_touch_01", "sharded_set_01_seq", "sharded_put_10_seq", "sharded_set_01_env",
-          "sharded_put_01_fault"]:
+          "sharded_put_01_fault", "sharded_write_notrigger", "sharded_invalid_names"]:
     unit(K("sharded_ops", n, functions=SHARDED, timeout=3600, mem_gb=12,
            bounds="3 shards, candidate shards fixed to (0,1)/(1,0) (mapping itself: engine M), each shard dir present/missing, "
                   "key absent / in primary / in secondary, arbitrary load estimates"))
@@ -156,6 +157,7 @@ unit(M("c12_mapping", functions=["multiplicative_hash::{reduce,mix,map}", "shard
        bounds="all u64 hashes, all usize shard counts >= 2, any mixer constants"))
 unit(M("c10_trigger", functions=["trigger::PeriodicTrigger::new", "trigger::observe::{closure#0}", "plain::Cache::new"],
        bounds="all periods / capacities / random draws (integer encoding, no bit-width cut)"))
+unit(M("c07_apply_glue", functions=["raw_cache::apply_update"], bounds="plans of up to 2+2 entries (bounded unrolling); callees uninterpreted"))
 unit(M("c07_prune_glue", functions=["raw_cache::prune"], bounds="all capacities; callees uninterpreted under their proven contracts"))
 
 PROPS = {}
@@ -197,7 +199,7 @@ prop("C06", ["plain_get_env", "plain_touch_env", "plain_ops_sanity_twin"],
      ["plain_set_env", "plain_put_env", "sharded_set_01_env"],
      outside=["blocking inside the kernel", "step bounds are asserted as call-count constants under every environment answer, with unwinding assertions on"],
      assumptions=COMMON_ASSUME + [RELY])
-prop("C07", ["c07_prune_glue", "raw_collect_a_temp", "raw_collect_a_app", "raw_collect_empty_temp", "raw_apply_update_evict_a_moveback_b",
+prop("C07", ["c07_prune_glue", "c07_apply_glue", "raw_collect_a_temp", "raw_collect_a_app", "raw_collect_empty_temp", "raw_apply_update_evict_a_moveback_b",
              "raw_apply_update_moveback_a_b", "raw_ops_sanity_twin"],
      ["raw_collect_ab_sub", "raw_prune_pieces_dotfile_and_a", "c08_n2", "c08_n3_evicted"],
      outside=["listings of more than 3 entries; plans of more than 2 entries", "the composition prune = apply_update . planner . listing is decided on the MIR of prune "
@@ -231,9 +233,10 @@ prop("C14", ["stack_get_w1r2_bytes", "stack_get_w1r1_nock", "stack_ops_sanity_tw
      ["stack_get_w0r2_bytes", "stack_gou_w1r1_bytes", "stack_gou_w1r1_nock"],
      outside=["checkers other than none / byte equality (the panicking checker is the same comparison followed by expect())"], assumptions=COMMON_ASSUME)
 prop("C15", ["stack_get_w1r1_nock", "stack_touch_w1r2", "plain_get_seq", "stack_ops_sanity_twin"],
-     ["stack_gou_w1r1_nock", "stack_gou_w0r1_nock", "stack_get_w1r2_bytes", "stack_get_w0r2_bytes", "stack_set_w1r1", "sharded_get_01", "plain_invalid_names"],
+     ["stack_gou_w1r1_nock", "stack_gou_w0r1_nock", "stack_get_w1r2_bytes", "stack_get_w0r2_bytes", "stack_set_w1r1", "sharded_get_01", "plain_invalid_name_dot"],
      outside=["read-only sharded levels"], assumptions=COMMON_ASSUME)
-prop("C16", ["c16_validator", "c16_confinement", "plain_invalid_names", "c16_sanity_twin"], [],
+prop("C16", ["c16_validator", "c16_confinement", "plain_invalid_name_empty", "plain_invalid_name_dot", "plain_invalid_name_slash",
+             "plain_invalid_name_backslash", "c16_sanity_twin"], ["sharded_invalid_names", "plain_set_fault"],
      outside=["names longer than 3 bytes and non-ASCII bytes (no byte >= 128 is a separator; the first-byte rule treats them as letters)",
               "embedded NUL (rejected by std when the path is turned into a C string)"], assumptions=COMMON_ASSUME)
 prop("C17", ["raw_prune_pieces_dotfile_only", "c02_cleanup_temp_by_age", "raw_collect_a_temp", "raw_ops_sanity_twin"],
@@ -250,7 +253,7 @@ prop("C19", ["plain_get_seq", "stack_get_w1r1_nock", "raw_insert_or_update_basic
      outside=["the no-writer miss path returns the throw-away temp file itself (read-write by construction): only its offset is checked"],
      assumptions=COMMON_ASSUME + ["the process umask only influences the initial mode of caller-supplied files, which is symbolic"])
 prop("C20", ["plain_get_seq", "plain_touch_seq", "stack_get_w1r1_nock", "plain_ops_sanity_twin"],
-     ["plain_set_seq", "plain_put_seq", "sharded_get_01", "sharded_touch_01", "stack_get_w1r2_bytes", "stack_gou_w1r1_nock"],
+     ["plain_set_seq", "plain_put_seq", "sharded_get_01", "sharded_touch_01", "sharded_write_notrigger", "stack_get_w1r2_bytes", "stack_gou_w1r1_nock"],
      outside=["the lifetime of directory streams (released inside std when the last DirEntry is dropped; not observable through the stubs)",
               "independence from the number of entries holds because no directory listing is reachable outside maintenance (asserted)"],
      assumptions=COMMON_ASSUME)
